@@ -498,6 +498,14 @@ impl<'a> Interp<'a> {
         self.db()
             .compact_range(Some(RESERVED_LO)..Some(RESERVED_HI));
         self.wait_idle()?;
+        if self.db().verif_state().num_versions > 1 {
+            // Nothing is held any more, yet an old version is still linked: make its files obsolete
+            // so that a leaked version shows up as dead files on disk.
+            self.stats.bump("version_still_linked_after_release");
+            self.db().compact_range(None..None);
+            self.db().compact_range(Some(RESERVED_LO)..Some(RESERVED_HI));
+            self.wait_idle()?;
+        }
         if let Err(e) = dir_exact(self.db(), &self.fs) {
             return self.fail(format!("{when}: {e}"));
         }
